@@ -70,13 +70,13 @@ Fixpoint first_bad (s : st) (j : nat) (l : list (step * obs)) : option nat :=
   | xo :: r => match check_step s xo with Some s1 => first_bad s1 (S j) r | None => Some j end
   end.
 
-(* results are encoded as 1000 * case index + step index *)
+(* results are flat lists of pairs: case index, step index *)
 Fixpoint model_mism_from (i : nat) (cs : list case) : list nat :=
   match cs with
   | [] => []
   | c :: r => match first_bad (init (c_wc c)) 0 (c_steps c) with
               | None => model_mism_from (S i) r
-              | Some j => (1000 * i + j) :: model_mism_from (S i) r
+              | Some j => i :: j :: model_mism_from (S i) r
               end
   end.
 Definition model_mismatches := model_mism_from 0.
@@ -100,7 +100,7 @@ Definition ref_step_ok (wc : bool) (prev_rep : N) (xo : step * obs) : bool :=
 Fixpoint ref_bad (wc : bool) (prev : N) (i j : nat) (l : list (step * obs)) : list nat :=
   match l with
   | [] => []
-  | xo :: r => (if ref_step_ok wc prev xo then [] else [1000 * i + j]) ++ ref_bad wc (o_rep (snd xo)) i (S j) r
+  | xo :: r => (if ref_step_ok wc prev xo then [] else [i; j]) ++ ref_bad wc (o_rep (snd xo)) i (S j) r
   end.
 Fixpoint ref_mism_from (i : nat) (cs : list case) : list nat :=
   match cs with
@@ -115,7 +115,7 @@ Definition ref_mismatches := ref_mism_from 0.
 Fixpoint known_steps (settled : bool) (i j : nat) (l : list (step * obs)) : list nat :=
   match l with
   | [] => []
-  | xo :: r => (if settled then [] else [1000 * i + j])
+  | xo :: r => (if settled then [] else [i; j])
                ++ known_steps (if is_switch (fst xo) then Nat.eqb (o_cls (snd xo)) 0 else settled) i (S j) r
   end.
 Fixpoint known_from (i : nat) (cs : list case) : list nat :=
